@@ -99,16 +99,16 @@ Definition slot_of (msg : ais_sentence) : asm_slot :=
 Definition buffer_step (buffer : asm_buffer) (msg : ais_sentence) : M (asm_buffer * option ais_sentence) :=
   let slot := slot_of msg in
   let buffer1 := if negb (buf_mem buffer slot)
-                 then buf_set buffer slot (py_repeat None (Z.max (a_frag_cnt msg) 255)) else buffer in
+                 then buf_set buffer slot (pyl_repeat None (Z.max (a_frag_cnt msg) 255)) else buffer in
   match buf_get buffer1 slot with
   | None => Raise (Py KeyError)
   | Some arr =>
-      match py_setitem arr (a_frag_num msg - 1) (Some msg) with
+      match pyl_setitem arr (a_frag_num msg - 1) (Some msg) with
       | Raise e => Raise e
       | Ok arr' =>
           let buffer2 := buf_set buffer1 slot arr' in
-          let parts := not_none (py_slice arr' 0 (a_frag_cnt msg)) in
-          if py_len parts =? a_frag_cnt msg then
+          let parts := not_none (pyl_slice arr' 0 (a_frag_cnt msg)) in
+          if pyl_len parts =? a_frag_cnt msg then
             match assemble_from_iterable parts with
             | Raise e => Raise e
             | Ok full => Ok (buf_del buffer2 slot, Some full)
@@ -152,8 +152,8 @@ Proof.
   unfold ais_step, buffer_step, stream_insert_wrapper, attach, fragment_count, slot_of, bind.
   destruct (is_single msg); [destruct w; reflexivity|].
   match goal with |- context [buf_get ?b ?s] => destruct (buf_get b s) as [arr|] end; [|reflexivity].
-  destruct (py_setitem arr (a_frag_num msg - 1) (Some msg)) as [arr'|e]; [|reflexivity].
-  destruct (py_len (not_none (py_slice arr' 0 (a_frag_cnt msg))) =? a_frag_cnt msg); [|reflexivity].
+  destruct (pyl_setitem arr (a_frag_num msg - 1) (Some msg)) as [arr'|e]; [|reflexivity].
+  destruct (pyl_len (not_none (pyl_slice arr' 0 (a_frag_cnt msg))) =? a_frag_cnt msg); [|reflexivity].
   destruct (assemble_from_iterable _) as [full|e]; [|reflexivity].
   destruct w; reflexivity.
 Qed.
@@ -167,42 +167,42 @@ Proof.
   unfold ais_step, buffer_step, attach, fragment_count, slot_of, bind.
   destruct (is_single msg); [destruct w; reflexivity|].
   match goal with |- context [buf_get ?b ?s] => destruct (buf_get b s) as [arr|] end; [|reflexivity].
-  destruct (py_setitem arr (a_frag_num msg - 1) (Some msg)) as [arr'|e]; [|reflexivity].
-  destruct (py_len (not_none (py_slice arr' 0 (a_frag_cnt msg))) =? a_frag_cnt msg); [|reflexivity].
+  destruct (pyl_setitem arr (a_frag_num msg - 1) (Some msg)) as [arr'|e]; [|reflexivity].
+  destruct (pyl_len (not_none (pyl_slice arr' 0 (a_frag_cnt msg))) =? a_frag_cnt msg); [|reflexivity].
   destruct (assemble_from_iterable _) as [full|e]; [|reflexivity].
   destruct w; reflexivity.
 Qed.
 
 (* ================================================================ Python list primitives on in-range arguments *)
 
-Lemma list_set_length : forall A (l : list A) k x, length (list_set l k x) = length l.
+Lemma list_set_length : forall A (l : list A) k x, length (pyl_list_set l k x) = length l.
 Proof. induction l as [|a l IH]; intros [|k] x; simpl; auto. Qed.
 
-Lemma nth_error_list_set_same : forall A (l : list A) k x, (k < length l)%nat -> nth_error (list_set l k x) k = Some x.
+Lemma nth_error_list_set_same : forall A (l : list A) k x, (k < length l)%nat -> nth_error (pyl_list_set l k x) k = Some x.
 Proof. induction l as [|a l IH]; intros [|k] x H; simpl in *; try lia; auto. apply IH. lia. Qed.
 
-Lemma nth_error_list_set_other : forall A (l : list A) k j x, j <> k -> nth_error (list_set l k x) j = nth_error l j.
+Lemma nth_error_list_set_other : forall A (l : list A) k j x, j <> k -> nth_error (pyl_list_set l k x) j = nth_error l j.
 Proof.
   induction l as [|a l IH]; intros [|k] [|j] x H; simpl; auto; try congruence.
 Qed.
 
-Lemma py_setitem_in_range : forall A (l : list A) i x,
-  0 <= i < py_len l -> py_setitem l i x = Ok (list_set l (Z.to_nat i) x).
+Lemma pyl_setitem_in_range : forall A (l : list A) i x,
+  0 <= i < pyl_len l -> pyl_setitem l i x = Ok (pyl_list_set l (Z.to_nat i) x).
 Proof.
-  intros A l i x H. unfold py_setitem, py_index.
+  intros A l i x H. unfold pyl_setitem, pyl_index.
   destruct (i <? 0) eqn:E1; [apply Z.ltb_lt in E1; lia|].
   rewrite E1. simpl.
-  destruct (py_len l <=? i) eqn:E2; [apply Z.leb_le in E2; lia|]. reflexivity.
+  destruct (pyl_len l <=? i) eqn:E2; [apply Z.leb_le in E2; lia|]. reflexivity.
 Qed.
 
-Lemma py_slice_prefix : forall A (l : list A) n, 0 <= n <= py_len l -> py_slice l 0 n = firstn (Z.to_nat n) l.
+Lemma pyl_slice_prefix : forall A (l : list A) n, 0 <= n <= pyl_len l -> pyl_slice l 0 n = firstn (Z.to_nat n) l.
 Proof.
-  intros A l n H. unfold py_slice, py_clip.
-  assert (0 <= py_len l) by (unfold py_len; lia).
+  intros A l n H. unfold pyl_slice, pyl_clip.
+  assert (0 <= pyl_len l) by (unfold pyl_len; lia).
   replace (0 <? 0) with false by reflexivity.
-  destruct (py_len l <? 0) eqn:E0; [apply Z.ltb_lt in E0; lia|].
+  destruct (pyl_len l <? 0) eqn:E0; [apply Z.ltb_lt in E0; lia|].
   destruct (n <? 0) eqn:E1; [apply Z.ltb_lt in E1; lia|].
-  destruct (py_len l <? n) eqn:E2; [apply Z.ltb_lt in E2; lia|].
+  destruct (pyl_len l <? n) eqn:E2; [apply Z.ltb_lt in E2; lia|].
   simpl. rewrite Z.sub_0_r. reflexivity.
 Qed.
 
@@ -228,22 +228,22 @@ Proof.
   rewrite seq_S, flat_map_app. simpl. f_equal. unfold cell. rewrite E. destruct c; reflexivity.
 Qed.
 
-Lemma zrange_seq : forall n lo, zrange lo n = map (fun k => lo + Z.of_nat k) (seq 0 n).
+Lemma zrange_seq : forall n lo, asm_zrange lo n = map (fun k => lo + Z.of_nat k) (seq 0 n).
 Proof.
   induction n as [|n IH]; intro lo; simpl; [reflexivity|].
   rewrite Z.add_0_r. f_equal. rewrite IH, <- seq_shift, map_map. apply map_ext. intro k. lia.
 Qed.
 
-Lemma zrange_length : forall n lo, length (zrange lo n) = n.
+Lemma zrange_length : forall n lo, length (asm_zrange lo n) = n.
 Proof. induction n; intro; simpl; auto. Qed.
 
-Lemma zrange_In : forall n lo x, In x (zrange lo n) <-> lo <= x < lo + Z.of_nat n.
+Lemma zrange_In : forall n lo x, In x (asm_zrange lo n) <-> lo <= x < lo + Z.of_nat n.
 Proof.
   induction n as [|n IH]; intros lo x; simpl; [lia|].
   rewrite IH. lia.
 Qed.
 
-Lemma zrange_NoDup : forall n lo, NoDup (zrange lo n).
+Lemma zrange_NoDup : forall n lo, NoDup (asm_zrange lo n).
 Proof.
   induction n as [|n IH]; intro lo; simpl; constructor; auto.
   rewrite zrange_In. lia.
@@ -252,7 +252,7 @@ Qed.
 (* ================================================================ the array of one message *)
 
 Definition store (arr : list (option ais_sentence)) (f : sfrag) : list (option ais_sentence) :=
-  list_set arr (Z.to_nat (f_num f - 1)) (Some (sf_sent f)).
+  pyl_list_set arr (Z.to_nat (f_num f - 1)) (Some (sf_sent f)).
 
 Definition arr_of (L : nat) (fs : list sfrag) : list (option ais_sentence) := fold_left store fs (repeat None L).
 
@@ -312,7 +312,7 @@ Qed.
 Lemma arr_of_parts : forall fs L n, NoDup (map f_num fs) -> (forall f, In f fs -> 1 <= f_num f <= Z.of_nat n) ->
   (n <= L)%nat ->
   not_none (firstn n (arr_of L fs)) =
-  map sf_sent (flat_map (fun k => filter (fun f => f_num f =? k) fs) (zrange 1 n)).
+  map sf_sent (flat_map (fun k => filter (fun f => f_num f =? k) fs) (asm_zrange 1 n)).
 Proof.
   intros fs L n N R HL.
   rewrite not_none_firstn by (rewrite arr_of_length; exact HL).
@@ -391,7 +391,7 @@ Proof.
   induction l as [|a l IH]; intros [|n] [|k] x H; simpl in *; try discriminate; auto. apply IH with n. exact H.
 Qed.
 
-Lemma join_raw_join_lf : forall l, join_raw l = join_lf (map (fun p => c_raw (a_common p)) l).
+Lemma join_raw_join_lf : forall l, join_raw l = asm_join_lf (map (fun p => c_raw (a_common p)) l).
 Proof.
   induction l as [|x r IH]; [reflexivity|]. destruct r as [|y r']; [reflexivity|].
   change (join_raw (x :: y :: r')) with (c_raw (a_common x) ++ LF :: join_raw (y :: r')).
@@ -430,7 +430,7 @@ Lemma frag_count_bound : forall fs g, WF_frags fs -> In g fs ->
 Proof.
   intros fs g [R S D O] Hg.
   assert (Hc := R g Hg).
-  assert (Hl : (length (map f_num (frags_of (sf_msg g) fs)) <= length (zrange 1 (Z.to_nat (f_cnt g))))%nat).
+  assert (Hl : (length (map f_num (frags_of (sf_msg g) fs)) <= length (asm_zrange 1 (Z.to_nat (f_cnt g))))%nat).
   { apply NoDup_incl_length; [apply D|]. intros x Hx. apply in_map_iff in Hx. destruct Hx as [y [Y1 Y2]].
     apply frags_of_In in Y2. destruct Y2 as [Y2 Y3].
     destruct (S y g Y2 Hg Y3) as [_ [_ Y4]]. specialize (R y Y2). apply zrange_In. lia. }
@@ -633,7 +633,7 @@ Proof.
   assert (HL : f_cnt f <= Z.of_nat L) by apply arrlen_ge.
   (* the array found (or created) in the slot *)
   assert (K : exists buffer1,
-             (if negb (buf_mem buf s) then buf_set buf s (py_repeat None (Z.max (f_cnt f) 255)) else buf) = buffer1 /\
+             (if negb (buf_mem buf s) then buf_set buf s (pyl_repeat None (Z.max (f_cnt f) 255)) else buf) = buffer1 /\
              buf_wf buffer1 /\ buf_get buffer1 s = Some (arr_of L (frags_of m seen)) /\
              forall s', s' <> s -> buf_get buffer1 s' = buf_get buf s').
   { unfold buf_mem. rewrite (G s). unfold s. rewrite (expected_own _ _ _ W Hs). fold m. fold L.
@@ -646,13 +646,13 @@ Proof.
   destruct K as [buffer1 [K0 [K1 [K2 K3]]]].
   unfold buffer_step. change (slot_of (sf_sent f)) with s. change (a_frag_cnt (sf_sent f)) with (f_cnt f).
   change (a_frag_num (sf_sent f)) with (f_num f). rewrite K0, K2.
-  rewrite py_setitem_in_range by (unfold py_len; rewrite arr_of_length; lia).
-  assert (Earr : list_set (arr_of L (frags_of m seen)) (Z.to_nat (f_num f - 1)) (Some (sf_sent f))
+  rewrite pyl_setitem_in_range by (unfold pyl_len; rewrite arr_of_length; lia).
+  assert (Earr : pyl_list_set (arr_of L (frags_of m seen)) (Z.to_nat (f_num f - 1)) (Some (sf_sent f))
                  = arr_of L (frags_of m (seen ++ [f]))).
   { unfold m. rewrite frags_of_snoc_same, arr_of_snoc. reflexivity. }
   rewrite Earr. clear Earr.
   set (fs' := frags_of m (seen ++ [f])). set (arr' := arr_of L fs').
-  rewrite py_slice_prefix by (unfold py_len, arr'; rewrite arr_of_length; lia).
+  rewrite pyl_slice_prefix by (unfold pyl_len, arr'; rewrite arr_of_length; lia).
   set (n := Z.to_nat (f_cnt f)).
   assert (Hn : (n <= L)%nat) by (unfold n; lia).
   assert (Rfs : forall g, In g fs' -> 1 <= f_num g <= Z.of_nat n).
@@ -671,8 +671,8 @@ Proof.
     - fold arr' in G2. rewrite G2 in E. discriminate. }
   assert (P : not_none (firstn n arr') = map sf_sent (parts_in_order m (f_cnt f) (seen ++ [f]))).
   { unfold arr'. rewrite (arr_of_parts fs' L n Nfs Rfs Hn). reflexivity. }
-  assert (Len : py_len (not_none (firstn n arr')) = Z.of_nat (length fs')).
-  { unfold py_len. rewrite P, map_length. unfold parts_in_order. fold fs'. fold n.
+  assert (Len : pyl_len (not_none (firstn n arr')) = Z.of_nat (length fs')).
+  { unfold pyl_len. rewrite P, map_length. unfold parts_in_order. fold fs'. fold n.
     rewrite flat_map_filter_length; [reflexivity|apply zrange_NoDup|].
     intros g Hg. apply zrange_In. specialize (Rfs g Hg). lia. }
   rewrite Len. unfold completes. fold m. fold fs'.
@@ -685,7 +685,7 @@ Proof.
   - (* complete: assemble and delete the slot *)
     unfold assemble_from_iterable. cbv zeta. rewrite (sort_by_frag_sorted _ _ Sorted).
     destruct (not_none (firstn n arr')) as [|first more] eqn:Parts.
-    { exfalso. unfold py_len in Len. simpl in Len. apply Z.eqb_eq in C. lia. }
+    { exfalso. unfold pyl_len in Len. simpl in Len. apply Z.eqb_eq in C. lia. }
     eexists. eexists. split; [reflexivity|]. split.
     + split; [apply buf_wf_del; apply buf_wf_set; exact K1|]. intro s'.
       destruct (slot_eq_dec s' s) as [E|E].
@@ -745,29 +745,29 @@ Proof.
   rewrite H. destruct (step2 st p t) as [[st' out]|e]; [|reflexivity]. rewrite IH. reflexivity.
 Qed.
 
-Lemma frags_app : forall a b, frags (a ++ b) = frags a ++ frags b.
+Lemma frags_app : forall a b, asm_frags (a ++ b) = asm_frags a ++ asm_frags b.
 Proof. induction a as [|[f|g|e] a IH]; intro b; simpl; rewrite ?IH; reflexivity. Qed.
 
 Lemma run_schedule : forall hs, skips hs -> forall rest seen buf w,
-  WF_frags (seen ++ frags rest) -> (forall e, In (ISkipped e) rest -> skippable e = true) -> Inv seen buf ->
+  WF_frags (seen ++ asm_frags rest) -> (forall e, In (ISkipped e) rest -> skippable e = true) -> Inv seen buf ->
   exists outs buf' w',
     asm_run (generic_step hs) (buf, w) (schedule_lines rest) = (outs, Ok (buf', w')) /\
     map (map delivery_of) outs = spec_deliveries_from seen rest /\
-    Inv (seen ++ frags rest) buf'.
+    Inv (seen ++ asm_frags rest) buf'.
 Proof.
   intros hs Hhs. induction rest as [|i rest IH]; intros seen buf w W Sk I.
   - exists [], buf, w. simpl. rewrite app_nil_r. auto.
   - assert (Sk' : forall e, In (ISkipped e) rest -> skippable e = true) by (intros e He; apply Sk; right; exact He).
-    destruct i as [f|g|e]; simpl frags in *; simpl schedule_lines; simpl asm_run.
+    destruct i as [f|g|e]; simpl asm_frags in *; simpl schedule_lines; simpl asm_run.
     + (* a fragment *)
       assert (R := wf_range _ W f ltac:(apply in_or_app; right; left; reflexivity)).
-      assert (W' : WF_frags ((seen ++ [f]) ++ frags rest)) by (rewrite <- app_assoc; exact W).
+      assert (W' : WF_frags ((seen ++ [f]) ++ asm_frags rest)) by (rewrite <- app_assoc; exact W).
       unfold ais_step. rewrite (is_single_spec f R).
       destruct (f_single f) eqn:Hs.
       * destruct (single_correct _ _ _ W Hs) as [C D].
         assert (I' : Inv (seen ++ [f]) buf).
         { destruct I as [Wb G]. split; [exact Wb|]. intro s. rewrite (G s). symmetry.
-          apply expected_other with (frags rest); [exact W|]. unfold occ. rewrite Hs. reflexivity. }
+          apply expected_other with (asm_frags rest); [exact W|]. unfold occ. rewrite Hs. reflexivity. }
         destruct (IH (seen ++ [f]) buf None W' Sk' I') as [outs [buf' [w' [E1 [E2 E3]]]]].
         rewrite E1. exists ([attach w (sf_sent f)] :: outs), buf', w'.
         split; [reflexivity|]. split; [|rewrite <- app_assoc in E3; exact E3].
@@ -844,14 +844,14 @@ Proof.
   inversion F as [|? ? F1 F2]; subst. destruct (slot_eqb s k); [exact F2|]. constructor; auto. apply IH. exact F2.
 Qed.
 
-Lemma list_set_Forall : forall A (P : A -> Prop) l k x, Forall P l -> P x -> Forall P (list_set l k x).
+Lemma list_set_Forall : forall A (P : A -> Prop) l k x, Forall P l -> P x -> Forall P (pyl_list_set l k x).
 Proof.
   induction l as [|a l IH]; intros [|k] x F Px; simpl; auto; inversion F; subst; constructor; auto.
 Qed.
 
-Lemma py_setitem_Forall : forall A (P : A -> Prop) l i x l', py_setitem l i x = Ok l' -> Forall P l -> P x -> Forall P l'.
+Lemma pyl_setitem_Forall : forall A (P : A -> Prop) l i x l', pyl_setitem l i x = Ok l' -> Forall P l -> P x -> Forall P l'.
 Proof.
-  intros A P l i x l' H F Px. unfold py_setitem in H. destruct (py_index (py_len l) i); [|discriminate].
+  intros A P l i x l' H F Px. unfold pyl_setitem in H. destruct (pyl_index (pyl_len l) i); [|discriminate].
   inversion H; subst. apply list_set_Forall; assumption.
 Qed.
 
@@ -882,17 +882,17 @@ Lemma buffer_step_fresh : forall buf msg buf' o, buf_fresh buf -> a_wrapper msg 
 Proof.
   intros buf msg buf' o F Fm H. unfold buffer_step in H.
   set (slot := slot_of msg) in *.
-  set (buffer1 := if negb (buf_mem buf slot) then buf_set buf slot (py_repeat None (Z.max (a_frag_cnt msg) 255)) else buf) in *.
+  set (buffer1 := if negb (buf_mem buf slot) then buf_set buf slot (pyl_repeat None (Z.max (a_frag_cnt msg) 255)) else buf) in *.
   assert (F1 : buf_fresh buffer1).
   { unfold buffer1. destruct (negb (buf_mem buf slot)); [|exact F]. apply buf_fresh_set; [exact F|].
     apply repeat_Forall. exact I. }
   destruct (buf_get buffer1 slot) as [arr|] eqn:E; [|discriminate].
-  destruct (py_setitem arr (a_frag_num msg - 1) (Some msg)) as [arr'|e] eqn:E2; [|discriminate].
-  assert (Fa : Forall cell_fresh arr') by (apply (py_setitem_Forall _ _ _ _ _ _ E2); [apply (buf_fresh_get _ _ _ F1 E)|exact Fm]).
-  destruct (py_len (not_none (py_slice arr' 0 (a_frag_cnt msg))) =? a_frag_cnt msg).
+  destruct (pyl_setitem arr (a_frag_num msg - 1) (Some msg)) as [arr'|e] eqn:E2; [|discriminate].
+  assert (Fa : Forall cell_fresh arr') by (apply (pyl_setitem_Forall _ _ _ _ _ _ E2); [apply (buf_fresh_get _ _ _ F1 E)|exact Fm]).
+  destruct (pyl_len (not_none (pyl_slice arr' 0 (a_frag_cnt msg))) =? a_frag_cnt msg).
   - destruct (assemble_from_iterable _) as [full|e] eqn:E3; [|discriminate]. inversion H; subst.
     split; [apply buf_fresh_del; apply buf_fresh_set; assumption|].
-    apply (assemble_wrapper _ _ E3). apply not_none_fresh. unfold py_slice. apply firstn_Forall. apply skipn_Forall. exact Fa.
+    apply (assemble_wrapper _ _ E3). apply not_none_fresh. unfold pyl_slice. apply firstn_Forall. apply skipn_Forall. exact Fa.
   - inversion H; subst. split; [apply buf_fresh_set; assumption|exact I].
 Qed.
 
@@ -929,7 +929,7 @@ Qed.
 
 Lemma run_wrappers : forall hs ins buf w, buf_fresh buf -> Forall fresh_line ins ->
   map (map a_wrapper) (fst (asm_run (generic_step hs) (buf, w) ins)) =
-  spec_wrapper_from w (events ins (map has_delivery (fst (asm_run (generic_step hs) (buf, w) ins)))).
+  spec_wrapper_from w (asm_events ins (map has_delivery (fst (asm_run (generic_step hs) (buf, w) ins)))).
 Proof.
   intros hs. induction ins as [|[p t] ins IH]; intros buf w F Fl; [reflexivity|].
   inversion Fl as [|? ? Fl1 Fl2]; subst. simpl asm_run.
@@ -946,14 +946,14 @@ Proof. constructor. Qed.
 
 Theorem stream_wrappers_correct : forall ins, Forall fresh_line ins ->
   map (map a_wrapper) (fst (asm_run stream_step asm_init ins)) =
-  spec_wrapper (events ins (map has_delivery (fst (asm_run stream_step asm_init ins)))).
+  spec_wrapper (asm_events ins (map has_delivery (fst (asm_run stream_step asm_init ins)))).
 Proof.
   intros ins F. rewrite (asm_run_ext _ _ stream_step_generic). apply run_wrappers; [apply buf_fresh_init|exact F].
 Qed.
 
 Theorem queue_wrappers_correct : forall ins, Forall fresh_line ins ->
   map (map a_wrapper) (fst (asm_run queue_step asm_init ins)) =
-  spec_wrapper (events ins (map has_delivery (fst (asm_run queue_step asm_init ins)))).
+  spec_wrapper (asm_events ins (map has_delivery (fst (asm_run queue_step asm_init ins)))).
 Proof.
   intros ins F. rewrite (asm_run_ext _ _ queue_step_generic). apply run_wrappers; [apply buf_fresh_init|exact F].
 Qed.
@@ -961,7 +961,7 @@ Qed.
 (* the two specifications together, on well-formed schedules *)
 Lemma events_schedule : forall s (outs : list (list ais_sentence)) spec,
   map (map delivery_of) outs = spec ->
-  events (schedule_lines s) (map has_delivery outs) = schedule_events s spec.
+  asm_events (schedule_lines s) (map has_delivery outs) = schedule_events s spec.
 Proof.
   induction s as [|i s IH]; intros outs spec H; [reflexivity|].
   destruct outs as [|o outs]; simpl in H; subst spec; [reflexivity|].
@@ -1006,12 +1006,12 @@ Lemma buffer_step_other_slots : forall buf msg buf' o s, buffer_step buf msg = O
 Proof.
   intros buf msg buf' o s H Hn. unfold buffer_step in H.
   set (slot := slot_of msg) in *.
-  set (buffer1 := if negb (buf_mem buf slot) then buf_set buf slot (py_repeat None (Z.max (a_frag_cnt msg) 255)) else buf) in *.
+  set (buffer1 := if negb (buf_mem buf slot) then buf_set buf slot (pyl_repeat None (Z.max (a_frag_cnt msg) 255)) else buf) in *.
   assert (K : buf_get buffer1 s = buf_get buf s).
   { unfold buffer1. destruct (negb (buf_mem buf slot)); [|reflexivity]. apply buf_get_set_other. exact Hn. }
   destruct (buf_get buffer1 slot) as [arr|]; [|discriminate].
-  destruct (py_setitem arr (a_frag_num msg - 1) (Some msg)) as [arr'|e]; [|discriminate].
-  destruct (py_len (not_none (py_slice arr' 0 (a_frag_cnt msg))) =? a_frag_cnt msg).
+  destruct (pyl_setitem arr (a_frag_num msg - 1) (Some msg)) as [arr'|e]; [|discriminate].
+  destruct (pyl_len (not_none (pyl_slice arr' 0 (a_frag_cnt msg))) =? a_frag_cnt msg).
   - destruct (assemble_from_iterable _); [|discriminate]. inversion H; subst.
     rewrite buf_get_del_other, buf_get_set_other by exact Hn. exact K.
   - inversion H; subst. rewrite buf_get_set_other by exact Hn. exact K.
@@ -1107,13 +1107,13 @@ Qed.
 
 (* ---------------------------------------------------------------- the front-ends feed the same lines *)
 
-Definition passes_filter (l : byte_line) : Prop := 10 < py_len l /\ should_parse l = true.
+Definition passes_filter (l : byte_line) : Prop := 10 < pyl_len l /\ should_parse l = true.
 
 Lemma stream_source_id : forall ls, Forall passes_filter ls -> stream_source ls = ls.
 Proof.
   induction ls as [|l ls IH]; intro F; [reflexivity|]. inversion F as [|? ? [F1 F2] F3]; subst.
   unfold stream_source in *. simpl. rewrite F2.
-  replace (py_len l <=? 10) with false by (symmetry; apply Z.leb_gt; exact F1). simpl. rewrite IH by exact F3. reflexivity.
+  replace (pyl_len l <=? 10) with false by (symmetry; apply Z.leb_gt; exact F1). simpl. rewrite IH by exact F3. reflexivity.
 Qed.
 
 Lemma split_after_lf_line : forall l cur rest, ~ In 10 l ->
@@ -1137,7 +1137,7 @@ Qed.
 
 Lemma passes_filter_terminated : forall l, passes_filter l -> passes_filter (terminated l).
 Proof.
-  intros l [H1 H2]. unfold passes_filter, terminated, py_len in *. rewrite app_length. simpl. split; [lia|].
+  intros l [H1 H2]. unfold passes_filter, terminated, pyl_len in *. rewrite app_length. simpl. split; [lia|].
   destruct l; [discriminate|exact H2].
 Qed.
 
@@ -1238,7 +1238,7 @@ Qed.
 
 (* ================================================================ properties of spec_wrapper itself *)
 
-Fixpoint no_wrap (evs : list event) : Prop :=
+Fixpoint no_wrap (evs : list asm_event) : Prop :=
   match evs with
   | [] => True
   | EWrap _ :: _ => False
@@ -1258,3 +1258,63 @@ Proof. reflexivity. Qed.
 (* of several wrappers the latest one counts; lines without delivery keep it pending *)
 Lemma spec_wrapper_latest : forall p g r, spec_wrapper_from p (EWrap g :: r) = [] :: spec_wrapper_from (Some g) r.
 Proof. reflexivity. Qed.
+
+(* ================================================================ the decision procedure for WF is sound *)
+
+Lemma asm_optz_eqb_eq : forall a b, asm_optz_eqb a b = true -> a = b.
+Proof. intros [x|] [y|] H; simpl in H; try discriminate; auto. apply Z.eqb_eq in H. congruence. Qed.
+
+Lemma asm_lz_eqb_eq : forall a b, asm_lz_eqb a b = true -> a = b.
+Proof.
+  induction a as [|x a IH]; intros [|y b] H; simpl in H; try discriminate; auto.
+  apply andb_true_iff in H. destruct H as [H1 H2]. apply Z.eqb_eq in H1. apply IH in H2. congruence.
+Qed.
+
+Lemma asm_lz_eqb_refl : forall a, asm_lz_eqb a a = true.
+Proof. induction a; simpl; auto. rewrite Z.eqb_refl. auto. Qed.
+
+Lemma distinct_ok_sound : forall fs, asm_distinct_ok fs = true -> forall m, NoDup (map f_num (frags_of m fs)).
+Proof.
+  induction fs as [|f r IH]; intros H m; [constructor|]. simpl in H. apply andb_true_iff in H. destruct H as [H1 H2].
+  unfold frags_of. simpl. destruct (Nat.eqb (sf_msg f) m) eqn:E; [|apply IH; exact H2].
+  simpl. constructor; [|apply IH; exact H2].
+  intro C. apply in_map_iff in C. destruct C as [g [G1 G2]]. apply filter_In in G2. destruct G2 as [G2 G3].
+  rewrite forallb_forall in H1. specialize (H1 g G2). apply negb_true_iff in H1.
+  apply Nat.eqb_eq in E. apply Nat.eqb_eq in G3. subst m.
+  rewrite G3, Nat.eqb_refl, G1, Z.eqb_refl in H1. discriminate.
+Qed.
+
+Lemma overlap_ok_sound : forall rest p, asm_overlap_ok p rest = true ->
+  forall p' f r, rest = p' ++ f :: r -> f_single f = false ->
+  forall g, In g (p ++ p') -> f_single g = false -> f_slot g = f_slot f -> sf_msg g <> sf_msg f ->
+  Z.of_nat (length (frags_of (sf_msg g) (p ++ p'))) = f_cnt g.
+Proof.
+  induction rest as [|x rest IH]; intros p H p' f r E Hs g Hg Hsg Hslot Hm.
+  - destruct p'; discriminate.
+  - simpl in H. apply andb_true_iff in H. destruct H as [H1 H2].
+    destruct p' as [|y p']; simpl in E; inversion E; subst.
+    + rewrite app_nil_r in *. rewrite Hs in H1. simpl in H1. assert (H1g := proj1 (forallb_forall _ _) H1 g Hg). clear H1. rename H1g into H1. simpl in H1.
+      rewrite Hsg in H1. simpl in H1.
+      replace (asm_slot_eqb2 (f_slot g) (f_slot f)) with true in H1
+        by (rewrite Hslot; unfold asm_slot_eqb2; rewrite Z.eqb_refl, asm_lz_eqb_refl; reflexivity).
+      simpl in H1. apply Nat.eqb_neq in Hm. rewrite Hm in H1. simpl in H1. apply Z.eqb_eq. exact H1.
+    + replace (p ++ y :: p') with ((p ++ [y]) ++ p') in * by (rewrite <- app_assoc; reflexivity).
+      apply (IH (p ++ [y]) H2 p' f r eq_refl Hs g Hg Hsg Hslot Hm).
+Qed.
+
+Theorem wf_check_sound : forall s, asm_wf_check s = true -> WF s.
+Proof.
+  intros s H. unfold asm_wf_check in H. apply andb_true_iff in H. destruct H as [H Hk].
+  unfold asm_wf_frags_check in H. apply andb_true_iff in H. destruct H as [H Ho].
+  apply andb_true_iff in H. destruct H as [H Hd]. apply andb_true_iff in H. destruct H as [Hr Hs]. split.
+  - constructor.
+    + intros f Hf. rewrite forallb_forall in Hr. specialize (Hr f Hf). unfold asm_range_ok in Hr.
+      apply andb_true_iff in Hr. destruct Hr as [A B]. apply Z.leb_le in A. apply Z.leb_le in B. lia.
+    + intros f g Hf Hg E. rewrite forallb_forall in Hs. specialize (Hs f Hf). rewrite forallb_forall in Hs.
+      specialize (Hs g Hg). unfold asm_same_ok in Hs. rewrite E, Nat.eqb_refl in Hs. simpl in Hs.
+      repeat (apply andb_true_iff in Hs; destruct Hs as [Hs ?]).
+      split; [apply asm_optz_eqb_eq; assumption|]. split; [apply asm_lz_eqb_eq; assumption|apply Z.eqb_eq; assumption].
+    + apply distinct_ok_sound. exact Hd.
+    + intros p f r E. apply (overlap_ok_sound _ [] Ho p f r E).
+  - intros e He. rewrite forallb_forall in Hk. apply (Hk _ He).
+Qed.
